@@ -251,3 +251,112 @@ Proof.
   vm_compute. repeat split; reflexivity.
 Qed.
 Print Assumptions decoded_reencodes_refuted_for_non_bytes.
+
+(* ---- the premise `enc v = Ok b'` settled for buffers of BYTES ----
+   Proofs: Cats/StructReencode.v (integers read from bytes are in range of their width, also from short slices; sub-buffers; arrays: what
+   the readers accepted the writers accept - same keys and order test, padding below the alignment, count = number of elements, byte size
+   of a variable-size array <= the view it was read from), Cats/StructReencode2.v (what the member loops leave in the environment, unions
+   included), Cats/StructReencode3.v (every member kind of the fragment serialises again), Cats/StructReencode4.v (structs with and
+   without parent, factories, induction on the odd fuel).
+   Premises on the SCHEMA only: pres_schemab tm = true (above) and reenc_schemab tm lim = true (a kernel computation; true of both
+   shipped schemas for lim = 2^32, shipped_schemas_reencode_fragment): member widths are positive; a count / byte-size member names the
+   array it is bound to; sizeof, @sizeref and @size members hold every number below lim (+ the sizeref delta); alignments are <= 65536.
+   Premise on the BUFFER: wf_bytes buf = true (every element in 0..255).
+   Premise on the decoded VALUE: small tm lim v - every sub-object of v (v itself, members, array elements, at any depth) has, whenever
+   its size is defined (any fuel, any static type), a size below lim.  For the shipped schemas lim = 2^32: all size-carrying members
+   (Symbol: the @size member of transactions, embedded transactions, blocks and receipts, payload_size of aggregates; NEM: the 13 sizeof
+   members, message_envelope_size, levy_size) are 4 bytes wide.
+   decoded_reencodes_partial / decoded_reencodes_factory_partial: then the decoded value re-encodes at the same (odd) fuel.  Every check
+   serialize performs is covered: integer ranges (plain, reserved, enum, alias), count and conditional count members (the count that was
+   read, or 0), byte size of aligned variable-size arrays (<= the byte-size member that was read), sizeof / @sizeref / @size members
+   (below lim by the premise), sort order of keyed arrays (the reader's test is the writer's), padding, conditional members, union arms.
+   dec_enc_dec_stable_bytes_partial / decf_enc_decf_stable_bytes_partial: hence decode - encode - decode is stable WITHOUT the premise
+   `enc v = Ok b'`: the decoded value re-encodes to some b', b' (followed by anything) decodes to the same value, which re-encodes to b'.
+   The size premise cannot be dropped, and no bound on the buffer length below 2^32 + (a few hundred) replaces it for free: replayed
+   on the real codec, nc.TransferTransactionV1.deserialize accepts a buffer of 4294967480 bytes (a valid transfer whose message_size is
+   2^32 - 8, followed by that many zero bytes: message.size = 2^32) and serialize() of the result raises OverflowError (int too big to
+   convert) at message_envelope_size; with one message byte fewer it re-encodes.  In the model the same needs a list of 2^32 elements,
+   which cannot be evaluated; lenient short reads (int.from_bytes of a short slice, elements of counted arrays read from an exhausted
+   buffer) make a decoded value LARGER than its buffer, so "length buf < 2^32" alone does not imply small; a bound
+   length buf + slack(schema) < 2^32 does (not proved here).
+   PARTIAL because (1) the schema premises are the fragment; (2) the fuel is odd and the same on both sides (for even fuels and for
+   K > k fuel monotonicity of enc / dec is needed, not proved); (3) small is a premise on the decoded value, not derived from the buffer
+   length. *)
+From Symv Require Import Cats.StructReencode Cats.StructReencode2 Cats.StructReencode3 Cats.StructReencode4.
+
+Theorem decoded_reencodes_partial : forall tm lim m t buf v, pres_schemab tm = true -> reenc_schemab tm lim = true ->
+  is_abs tm t = false -> wf_bytes buf = true -> dec ops_now tm (2 * m + 1) t buf = Ok v -> small tm lim v ->
+  exists b', enc ops_now tm (2 * m + 1) t v = Ok b'.
+Proof. exact (fun tm lim m t buf v Hs Hr => dec_reencodes tm lim Hs Hr m t buf v). Qed.
+Print Assumptions decoded_reencodes_partial.
+
+Theorem decoded_reencodes_factory_partial : forall tm lim m t buf v, pres_schemab tm = true -> reenc_schemab tm lim = true ->
+  is_abs tm t = true -> wf_bytes buf = true -> decf ops_now tm (2 * m + 1) t buf = Ok v -> small tm lim v ->
+  exists b', enc ops_now tm (2 * m + 1) t v = Ok b'.
+Proof. exact (fun tm lim m t buf v Hs Hr => decf_reencodes tm lim Hs Hr m t buf v). Qed.
+Print Assumptions decoded_reencodes_factory_partial.
+
+Theorem dec_enc_dec_stable_bytes_partial : forall tm lim m t buf v, pres_schemab tm = true -> reenc_schemab tm lim = true ->
+  is_abs tm t = false -> wf_bytes buf = true -> dec ops_now tm (2 * m + 1) t buf = Ok v -> small tm lim v ->
+  exists b', enc ops_now tm (2 * m + 1) t v = Ok b' /\
+    (forall rest, dec ops_now tm (2 * m + 1) t (b' ++ rest) = Ok v) /\
+    (forall v2, dec ops_now tm (2 * m + 1) t b' = Ok v2 -> v2 = v /\ enc ops_now tm (2 * m + 1) t v2 = Ok b') /\
+    size ops_now tm (2 * m + 1) t v = Ok (Z.of_nat (length b')).
+Proof. exact (fun tm lim m t buf v Hs Hr => dec_stable_bytes tm lim Hs Hr m t buf v). Qed.
+Print Assumptions dec_enc_dec_stable_bytes_partial.
+
+Theorem decf_enc_decf_stable_bytes_partial : forall tm lim m t buf v rest, pres_schemab tm = true -> reenc_schemab tm lim = true ->
+  is_abs tm t = true -> wf_bytes buf = true -> decf ops_now tm (2 * m + 1) t buf = Ok v -> small tm lim v ->
+  exists b', enc ops_now tm (2 * m + 1) t v = Ok b' /\ decf ops_now tm (2 * m + 1) t (b' ++ rest) = Ok v /\
+    size ops_now tm (2 * m + 1) t v = Ok (Z.of_nat (length b')) /\ (0 < length b')%nat.
+Proof. exact (fun tm lim m t buf v rest Hs Hr => decf_stable_bytes tm lim Hs Hr m t buf v rest). Qed.
+Print Assumptions decf_enc_decf_stable_bytes_partial.
+
+(* both shipped schemas meet the second schema premise for lim = 2^32, and their leaf types are smaller than that *)
+Example shipped_schemas_reencode_fragment :
+  reenc_schemab sc_schema (2 ^ 32) = true /\ reenc_schemab nc_schema (2 ^ 32) = true
+  /\ leaf_sizes_below sc_schema (2 ^ 32) = true /\ leaf_sizes_below nc_schema (2 ^ 32) = true.
+Proof. vm_compute. repeat split; reflexivity. Qed.
+Print Assumptions shipped_schemas_reencode_fragment.
+
+(* the size premise at integers and byte arrays follows from the declared sizes *)
+Theorem small_at_leaves : forall tm lim x, leaf_sizes_below tm lim = true -> match x with VInt _ | VBytes _ => True | _ => False end ->
+  forall K t sz, size ops_now tm K t x = Ok sz -> sz < lim.
+Proof. exact small_leaf. Qed.
+Print Assumptions small_at_leaves.
+
+(* non-vacuity with ALL premises together, on shipped structs and concrete buffers of bytes:
+   - the 3-byte buffer of stable_premises_nonvacuous decodes as a Symbol UnresolvedMosaic (m = 1) whose sub-objects have sizes 16, 8, 8;
+   - the embedded hash lock (size member 105, 3 trailing bytes) decodes through EmbeddedTransactionFactory at fuel 25 (m = 12); its
+     sub-objects have sizes 104, 32, 1, 1, 2, 16, 8, 8, 8, 32 *)
+Example reencodes_premises_nonvacuous :
+  pres_schemab sc_schema = true /\ reenc_schemab sc_schema (2 ^ 32) = true
+  /\ (let v := VStruct "UnresolvedMosaic" [("mosaic_id", VInt 131333); ("amount", VInt 0)] in
+      is_abs sc_schema "UnresolvedMosaic" = false /\ wf_bytes [5; 1; 2] = true
+      /\ dec ops_now sc_schema (2 * 1 + 1) "UnresolvedMosaic" [5; 1; 2] = Ok v /\ small sc_schema (2 ^ 32) v)
+  /\ (let buf := [105; 0; 0; 0; 0; 0; 0; 0] ++ repeat 7 32 ++ [0; 0; 0; 0; 1; 152; 72; 65]
+                 ++ [6; 0; 0; 0; 0; 0; 0; 0; 9; 0; 0; 0; 0; 0; 0; 0; 1; 0; 0; 0; 0; 0; 0; 0] ++ repeat 9 32 ++ [1; 2; 3] in
+      let v := VStruct "EmbeddedHashLockTransactionV1"
+                 [("signer_public_key", VBytes (repeat 7 32)); ("version", VInt 1); ("network", VInt 152); ("type", VInt 16712);
+                  ("mosaic", VStruct "UnresolvedMosaic" [("mosaic_id", VInt 6); ("amount", VInt 9)]); ("duration", VInt 1);
+                  ("hash", VBytes (repeat 9 32))] in
+      is_abs sc_schema "EmbeddedTransaction" = true /\ wf_bytes buf = true
+      /\ decf ops_now sc_schema (2 * 12 + 1) "EmbeddedTransaction" buf = Ok v /\ small sc_schema (2 ^ 32) v).
+Proof.
+  assert (Hleaf : leaf_sizes_below sc_schema (2 ^ 32) = true) by (vm_compute; reflexivity).
+  split; [vm_compute; reflexivity|]. split; [vm_compute; reflexivity|]. split.
+  - cbv zeta. split; [vm_compute; reflexivity|]. split; [vm_compute; reflexivity|]. split; [vm_compute; reflexivity|].
+    intros x K t sz Hx Hsz. cbn [subvalues flat_map snd app] in Hx.
+    destruct Hx as [<-|Hx].
+    { destruct K as [|[|[|K]]]; vm_compute in Hsz; try discriminate. injection Hsz as <-. reflexivity. }
+    repeat (destruct Hx as [<-|Hx]; [refine (small_leaf sc_schema (2 ^ 32) _ Hleaf _ K t sz Hsz); exact I|]). destruct Hx.
+  - cbv zeta. split; [vm_compute; reflexivity|]. split; [vm_compute; reflexivity|]. split; [vm_compute; reflexivity|].
+    intros x K t sz Hx Hsz. cbn [subvalues flat_map snd app] in Hx.
+    destruct Hx as [<-|Hx].
+    { destruct K as [|[|[|[|[|K]]]]]; vm_compute in Hsz; try discriminate. injection Hsz as <-. reflexivity. }
+    do 4 (destruct Hx as [<-|Hx]; [refine (small_leaf sc_schema (2 ^ 32) _ Hleaf _ K t sz Hsz); exact I|]).
+    destruct Hx as [<-|Hx].
+    { destruct K as [|[|[|K]]]; vm_compute in Hsz; try discriminate. injection Hsz as <-. reflexivity. }
+    repeat (destruct Hx as [<-|Hx]; [refine (small_leaf sc_schema (2 ^ 32) _ Hleaf _ K t sz Hsz); exact I|]). destruct Hx.
+Qed.
+Print Assumptions reencodes_premises_nonvacuous.
